@@ -103,7 +103,11 @@ def check_queries(ctx, srcs, what: str, expect_index_error=None, pack_check=None
 
     rng = ctx.rng
     reqs, keep = [], []
-    worlds = [pyworld.to_world(rich_dataset(rng)), pyworld.to_world(gen_dataset(rng))]
+    from common import val_sexpr
+
+    raw_worlds = [rich_dataset(rng), gen_dataset(rng)]
+    worlds = [(pyworld.to_world(d), val_sexpr(d)) for d in raw_worlds]
+    strict_only = []  # (case, original, simplified, dataset): CPython's strict lists failed where the original evaluated
     for src in srcs:
         try:
             a = parse_query(src)
@@ -148,7 +152,7 @@ def check_queries(ctx, srcs, what: str, expect_index_error=None, pack_check=None
                     ctx.violate({"src": src, "out": ast.unparse(out)}, "C14: " + msg)
             # CPython ground truth on a sample
             if rng.random() < 0.35:
-                for w in worlds:
+                for w, w_sexpr in worlds:
                     try:
                         want = pyworld.from_world(pyworld.py_eval(a, w))
                     except Exception:
@@ -157,7 +161,13 @@ def check_queries(ctx, srcs, what: str, expect_index_error=None, pack_check=None
                     try:
                         have = pyworld.from_world(pyworld.py_eval(out, w))
                     except Exception as e:
-                        have = f"raises {type(e).__name__}: {e}"[:120]
+                        # CPython's lists are strict: First(Select(s, f)) evaluates f on every element, a LINQ backend
+                        # only on the first. A failure of the simplified query under strict evaluation is decided by the
+                        # deferred-execution reference semantics on the same dataset (below), not reported from here.
+                        ctx.dist["py-simplified-fails-under-strict-lists (decided by the deferred-execution reference)"] += 1
+                        strict_only.append(({"src": src, "out": ast.unparse(out), "python_original": repr(want)[:150],
+                                             "python_simplified_strict": f"raises {type(e).__name__}: {e}"[:120]}, a_enc, enc(out), w_sexpr))
+                        continue
                     if have != want:
                         ctx.violate({"src": src, "out": ast.unparse(out), "python_original": repr(want)[:150], "python_simplified": repr(have)[:150]},
                                     "C02: the simplified query does not compute what the original computes (CPython)")
@@ -210,13 +220,39 @@ def check_queries(ctx, srcs, what: str, expect_index_error=None, pack_check=None
                 m = (st, f"undecodable model output: {e}")
         else:
             m = (st, payload)
-        if m != got:
+        if m != got and m[0] == "ok" and got[0] == "ok" and out_enc is not None and _agree_after_resimplification(ctx, out_enc, payload):
+            # the implementation hands out ONE node object for every occurrence of a substituted argument and edits
+            # nodes in place, so a re-visit of one occurrence (subscript / attribute pushed under a First) simplifies
+            # all of them a step further than the purely functional model does; both outputs are simplifications of
+            # the same query and meet after further passes of the model's own simplifier
+            ctx.dist["agree after model re-simplification (in-place edit of a shared node)"] += 1
+        elif m != got:
             ctx.disagree("simplify", {"src": src}, got[1][:600], (m[0], m[1][:600]))
         if out_enc is not None:
             pairs.append(({"src": src}, a_enc, out_enc))
     from common import compare_ev
 
     compare_ev(ctx, ctx.driver, pairs, fixed_datasets(rng, 3), "C02: the simplified query evaluates differently from the original (ev)")
+    for case, a_enc, o_enc, w_sexpr in strict_only:
+        compare_ev(ctx, ctx.driver, [(case, a_enc, o_enc)], [w_sexpr],
+                   "C02: the simplified query fails where the original evaluates, under strict lists and under deferred execution alike")
+
+
+def _agree_after_resimplification(ctx, impl_enc: str, model_enc: str, rounds: int = 4) -> bool:
+    from astcodec import dec_text
+
+    cur_i, cur_m = impl_enc, model_enc
+    for _ in range(rounds):
+        ri, rm = ctx.driver.batch([("simp", ["0", cur_i]), ("simp", ["0", cur_m])])
+        if ri[0] != "ok" or rm[0] != "ok":
+            return False
+        try:
+            if enc(alpha(dec_text(ri[1]))) == enc(alpha(dec_text(rm[1]))):
+                return True
+        except Exception:  # pragma: no cover
+            return False
+        cur_i, cur_m = ri[1], rm[1]
+    return False
 
 
 # ---- C02 generator --------------------------------------------------------------------------------------------------
